@@ -47,7 +47,9 @@ func c18DICarriers() []c18DICarrier {
 		return func() (metadata.Definition, []metadata.Definition) { return n(), nil }
 	}
 	basic := alone(func() metadata.Definition { return &metadata.DIBasicType{MetadataID: 9, Name: "x", Size: 32} })
-	composite := alone(func() metadata.Definition { return &metadata.DICompositeType{MetadataID: 9, Tag: enum.DwarfTagStructureType, Name: "x"} })
+	composite := alone(func() metadata.Definition {
+		return &metadata.DICompositeType{MetadataID: 9, Tag: enum.DwarfTagStructureType, Name: "x"}
+	})
 	derived := alone(func() metadata.Definition {
 		return &metadata.DIDerivedType{MetadataID: 9, Tag: enum.DwarfTagPointerType, BaseType: metadata.Null}
 	})
